@@ -30,15 +30,10 @@ def paths_from_entry_states(ctx, f, B):
     identified, the function is evaluated without any knowledge of the state (every branch counts), as before."""
     plain = lambda: sem.paths(f, B, result_combinators=True)[0]
     it = f.items.get(B.path) or {}
-    owner = (it.get('impl_self') or '').split('<')[0]
-    st_item = f.items.get(owner) or {}
-    if st_item.get('kind') != 'Struct' or not it.get('inputs') or not hirq.strip_refs(it['inputs'][0]).startswith(owner):
+    dom = sem.finite_state_field(f, B.path)
+    if dom is None:
         return plain()
-    enums = {k: v for k, v in f.items.items() if v.get('kind') == 'Enum' and v.get('variants') and all(not x['fields'] for x in v['variants'])}
-    sfields = [(fl['name'], enums[fl['ty']]) for fl in st_item['variants'][0]['fields'] if fl['ty'] in enums]
-    if len(sfields) != 1:
-        return plain()
-    fname, enum = sfields[0]
+    fname, values = dom
     refs = set()
     for path, h in f.hir.items():
         if path == B.path:
@@ -52,8 +47,7 @@ def paths_from_entry_states(ctx, f, B):
     ctx.analysed['bodies'].add(shim.path)
     place = ('field', ('param', 'self'), fname)
     entered = []
-    for v in enum['variants']:
-        val = ('ctor', hirq.short_def(v['path']), ())
+    for val in values:
         outs = absx.Interp(f, shim, result_combinators=True).run(root=sem.entry(shim), heap={place: val})
         if any(e[0] == 'call' and e[1] == B.path for o in outs for e in o.st.ev):
             entered.append(val)
